@@ -10,8 +10,12 @@ together with the part of the CPython 3.12 runtime they rely on (this part is
 *modelled, not verified*; the correspondence exercises it on every run):
 
 * exception objects are ids; the heap gives each id its class, its current
-  `__traceback__` and its `__cause__`.  A traceback is the list of frame tags in
-  `tb_next` order (outermost frame first); `[]` is `None`.
+  `__traceback__`, its `__cause__` and its `__suppress_context__`.  A traceback is
+  the list of frame tags in `tb_next` order (outermost frame first); `[]` is `None`.
+  Only `raise … from c` assigns `__cause__` (and sets `__suppress_context__`); a
+  plain `raise e` leaves both alone.  (`__context__`, which the interpreter itself
+  assigns on every raise made while another exception is handled, is not modelled;
+  the implementation-only oracle checks it.)
 * every time an exception is raised by a `raise e` statement in a frame, or comes
   out of a call made by a frame, that frame's tag is put in front of the
   exception's traceback (`Heap.through`).  A context manager's `__exit__`
@@ -72,6 +76,7 @@ structure Heap where
   cls : ExcId → Cls
   tb : ExcId → Tb
   cause : ExcId → Option ExcId
+  suppress : ExcId → Bool      -- `__suppress_context__`
   next : Nat                   -- ids from `next` on are unallocated
 
 def Heap.setTb (h : Heap) (e : ExcId) (t : Tb) : Heap :=
@@ -80,11 +85,13 @@ def Heap.setTb (h : Heap) (e : ExcId) (t : Tb) : Heap :=
 /-- the exception is raised in / propagates out of a call made by frame `f` -/
 def Heap.through (h : Heap) (e : ExcId) (f : Frame) : Heap := h.setTb e (f :: h.tb e)
 
-/-- a new exception object of class `c` (`__traceback__` is None) -/
-def Heap.alloc (h : Heap) (c : Cls) (cause : Option ExcId) : Heap × ExcId :=
+/-- a new exception object of class `c` (`__traceback__` is None); `from` is the `raise … from`
+    clause it is raised with, if any (it sets `__cause__` and `__suppress_context__`) -/
+def Heap.alloc (h : Heap) (c : Cls) (frm : Option (Option ExcId)) : Heap × ExcId :=
   ({ cls := fun i => if i = h.next then c else h.cls i,
      tb := fun i => if i = h.next then [] else h.tb i,
-     cause := fun i => if i = h.next then cause else h.cause i,
+     cause := fun i => if i = h.next then frm.join else h.cause i,
+     suppress := fun i => if i = h.next then frm.isSome else h.suppress i,
      next := h.next + 1 }, h.next)
 
 inductive PathKind | absent | file | dir
@@ -114,8 +121,8 @@ def St.activeTb (s : St) : Tb :=
   | none => []
 
 /-- a new exception of class `c` is raised in frame `f` -/
-def St.raiseFresh (s : St) (c : Cls) (cause : Option ExcId) (f : Frame) : St × ExcId :=
-  let (h, r) := s.heap.alloc c cause
+def St.raiseFresh (s : St) (c : Cls) (frm : Option (Option ExcId)) (f : Frame) : St × ExcId :=
+  let (h, r) := s.heap.alloc c frm
   ({ s with heap := h.through r f }, r)
 
 inductive Compl
@@ -211,17 +218,45 @@ def Pred.eval (p : Pred) (e : ExcId) : PredRes :=
 structure Filter where
   shouldIgnore : ExcId → PredRes
 
-/-- an `exception_filter` wrapping a *method* `fn(self, ex)`, stored as a class attribute -/
-structure FilterDesc (σ : Type) where
-  fn : σ → ExcId → PredRes
+/-- what an `exception_filter` stored as a class attribute wraps: a plain function `fn(self, ex)`,
+    a `classmethod` `fn(cls, ex)` or a `staticmethod` `fn(ex)`; `σ` is the instance state, `κ` the
+    class state -/
+inductive Wrapped (σ κ : Type)
+  | method (fn : σ → ExcId → PredRes)
+  | classMethod (fn : κ → ExcId → PredRes)
+  | staticMethod (fn : ExcId → PredRes)
 
-/-- `__get__(obj, owner)` (328-329): a new filter around the bound method -/
-def FilterDesc.get {σ : Type} (d : FilterDesc σ) (obj : σ) : Filter := ⟨d.fn obj⟩
+/-- `_should_ignore_ex.__get__(obj, owner)` of the three kinds of wrapped object, for a lookup made
+    through the instance `obj` of class `owner` (a lookup on the class itself passes no instance; the
+    class method and the static method do not look at it) -/
+def Wrapped.bind {σ κ : Type} (w : Wrapped σ κ) (obj : σ) (owner : κ) : ExcId → PredRes :=
+  match w with
+  | .method fn => fn obj
+  | .classMethod fn => fn owner
+  | .staticMethod fn => fn
 
-/-- the two ways a filter is made: decorator on a function, or decorator on a method reached
-    through an instance whose state is the table -/
-def mkFilter (bound : Bool) (p : Pred) : Filter :=
-  if bound then (FilterDesc.mk (fun (self : Pred) e => self.eval e)).get p else ⟨p.eval⟩
+/-- `exception_filter.__get__(obj, owner)` (328-329): a *new* filter around the bound callable — bound
+    to the very instance (class) the lookup went through, whatever was looked up before -/
+def filterGet {σ κ : Type} (w : Wrapped σ κ) (obj : σ) (owner : κ) : Filter := ⟨w.bind obj owner⟩
+
+/-- how a filter is made and reached -/
+inductive FilterForm
+  | func                              -- decorator on a module-level function
+  | method                            -- decorator on an instance method, reached through an instance
+  | classMethod (viaInstance : Bool)  -- on a classmethod, reached through the class / an instance
+  | staticMethod (viaInstance : Bool) -- on a staticmethod, reached through the class / an instance
+  deriving DecidableEq, Repr
+
+/-- the filter an operation uses: `p` is the predicate table held by the function's closure
+    (func, staticmethod), by the instance (`self.accept`; method) or by the class (`cls.accept`;
+    classmethod).  Other instances / subclasses with other tables may exist and may have been used
+    before: `__get__` does not depend on them. -/
+def mkFilter (form : FilterForm) (p : Pred) : Filter :=
+  match form with
+  | .func => ⟨p.eval⟩
+  | .method => filterGet (.method (fun (self : Pred) e => self.eval e) : Wrapped Pred Unit) p ()
+  | .classMethod _ => filterGet (.classMethod (fun (cls : Pred) e => cls.eval e) : Wrapped Unit Pred) () p
+  | .staticMethod _ => filterGet (.staticMethod p.eval : Wrapped Unit Unit) () ()
 
 /-- calling the predicate (frame `pred`) -/
 def callPred (fl : Filter) (e : ExcId) (s : St) : St × PredRes :=
@@ -313,8 +348,8 @@ inductive Body
   | capture                           -- ctxt.capture()
   | seq (a b : Body)
   | handle (e : ExcId) (handler : Body)   -- try: raise E[e] / except BaseException: handler
-  | filterCtx (bound : Bool) (p : Pred) (body : Body)   -- with filt: body
-  | filterCall (bound : Bool) (p : Pred) (e : ExcId)    -- filt(E[e])
+  | filterCtx (form : FilterForm) (p : Pred) (body : Body)   -- with filt: body
+  | filterCall (form : FilterForm) (p : Pred) (e : ExcId)    -- filt(E[e])
   | rpoe (rm : RemoveFn) (body : Body)    -- with remove_path_on_error(path, remove=rm): body
   | rwc (explicit : Option (Option ExcId))  -- raise_with_cause(Caused, 'm'[, cause=…])
   /-- `with save_and_reraise_exception(reraise=…) as ctxt': body` and then, if the `with` statement ended
@@ -376,7 +411,7 @@ def exec : Body → Sre → St → Res
     let cause := match explicit with
       | some given => given
       | none => s.active
-    let (s1, w) := s.raiseFresh .caused cause .rwc
+    let (s1, w) := s.raiseFresh .caused (some cause) .rwc          -- 142 `raise … from cause`
     ⟨s1.through w .scen, c, .raised w⟩
   | .nestThen fl body late, c, s =>
     let r := exec body (enter (Sre.init fl) s) s
